@@ -183,7 +183,12 @@ def do_round(pid, seed, rnd, tier):
             out['step_notes'].append(res.get('notes', {}))
             out['step_argsigs'].append(res.get('argsigs', []))
         if 'harness_error' in res or 'harness_timeout' in res:
-            out['harness'].append({'case': case, 'res': res})
+            out['harness'].append({'res': res, 'case': case})
+            if 'step_digests' in out and len(out['step_digests']) == len(out['step_notes']):
+                # keep the per-session lists aligned across replicas: a failed session is a hole, not a shift
+                out['step_digests'].append(None)
+                out['step_notes'].append({})
+                out['step_argsigs'].append(None)
             if len(out['harness']) > 3:
                 break
             continue
